@@ -284,7 +284,14 @@ def rule_glob_only(ctx, rep):
     fn = ctx.prog.func("codemodder.code_directory.filter_files")
     r = ctx.resolver(fn)
 
-    def is_matcher(e) -> bool:
+    def is_matcher(e, _depth=3) -> bool:
+        if isinstance(e, ast.Name) and _depth > 0:
+            # a list built up in a loop: `acc = []` ... `acc.append(fnmatch.filter(names, glob))`: every element put into it is a matcher result
+            fills = [c for c in walk_no_nested(fn.node) if isinstance(c, ast.Call) and isinstance(c.func, ast.Attribute) and c.func.attr in ("append", "extend")
+                     and isinstance(c.func.value, ast.Name) and c.func.value.id == e.id and len(c.args) == 1]
+            binds = [a for a in walk_no_nested(fn.node) if isinstance(a, (ast.Assign, ast.AnnAssign)) and any(isinstance(t, ast.Name) and t.id == e.id for t in (a.targets if isinstance(a, ast.Assign) else [a.target]))]
+            if fills and all(isinstance(a.value, (ast.List, ast.Tuple)) and not a.value.elts for a in binds):
+                return all(is_matcher(c.args[0], _depth - 1) for c in fills)
         e = r.expand(e)
         if isinstance(e, ast.Call):
             q = r.callee_qname(e) or ""
